@@ -149,6 +149,10 @@ func (e *Engine) acquire(fr *Frame, spec *lockSpec, l *Loc) {
 	vc.heapSet(fr.st, "CV$signalled", "((as const (Array Int Bool)) false)")
 	top := fr.topFrame()
 	top.held = append(top.held, &heldLock{spec: spec, ref: l.ref, loc: l})
+	if top.acquired == nil {
+		top.acquired = map[*lockSpec]bool{}
+	}
+	top.acquired[spec] = true
 	rs := fr.st.clone()
 	rs.region = nil
 	fr.st.region = rs
